@@ -74,6 +74,7 @@ type algDkgCase struct {
 	Seed   int64    `json:"seed"`
 	Big    bool     `json:"big"`
 	TimeMs int      `json:"time_ms"` // deadline override (large DKGs take seconds, not milliseconds)
+	Probe  bool     `json:"probe"`   // exploratory run: a timeout is an observation, not a sign of an overloaded machine
 }
 
 type algJob struct {
@@ -87,6 +88,7 @@ type algJob struct {
 	BLag      []algBigLagCase `json:"blag"`
 	BChoose   []algChooseCase `json:"bchoose"`
 	BDeal     []algBigDeal    `json:"bdeal"`
+	Seq       []algSeqCase    `json:"seq"`
 }
 
 // large sets of evaluation points (sizes up to 256, identifiers up to 65535)
@@ -107,6 +109,7 @@ type algBigDeal struct {
 	Subs    [][]int64 `json:"subs"`
 	MsgLen  int       `json:"msglen"`
 	Seed    int64     `json:"seed"`
+	Ids     []uint16  `json:"ids"` // identifiers of the parties (ascending); default 1..n
 }
 
 type algLog struct{}
@@ -583,7 +586,13 @@ func (h *algPlayer) shareData(publicKeys [][]byte, tpk []byte) ([]byte, error) {
 var algTimeouts int32
 
 func algDkg(c algDkgCase, timeout time.Duration) obj {
-	res := obj{"k": "dkg", "scheme": c.Scheme, "n": c.N, "t": c.T, "pos": c.Pos, "off": c.Off, "comp": c.Comp, "expect": c.Expect,
+	return algDkgOn(c, timeout, func(id uint16, msgLen int) algParty { return algNewParty(c.Scheme, id, msgLen) })
+}
+
+// algDkgOn runs one key generation; `get` supplies the real instance of a party (a fresh one, or -- for sequences of key
+// generations -- the instance that already ran earlier key generations).
+func algDkgOn(c algDkgCase, timeout time.Duration, get func(id uint16, msgLen int) algParty) obj {
+	res := obj{"k": "dkg", "material": false, "matwhy": "", "tpkhex": "", "panictxt": "", "scheme": c.Scheme, "n": c.N, "t": c.T, "pos": c.Pos, "off": c.Off, "comp": c.Comp, "expect": c.Expect,
 		"ids": []uint16{}, "seed": c.Seed, "exh": c.Exh, "errs": []bool{}, "panics": []bool{}, "agree": false, "timeout": false, "subs": [][]int{},
 		"oks": []bool{}, "errtxt": "", "harness": "", "signed": false, "ms": 0}
 	res["big"] = c.Big
@@ -625,8 +634,10 @@ func algDkg(c algDkgCase, timeout time.Duration) obj {
 			}
 			continue
 		}
-		inst[id] = algNewParty(c.Scheme, id, msgLen)
+		inst[id] = get(id, msgLen)
 	}
+	var revMu sync.Mutex
+	reveals := map[uint16][]byte{} // the key every party announced in THIS key generation, as seen on the wire
 	deliver := func(from, to uint16, msg []byte, bcast bool) {
 		cp := append([]byte(nil), msg...)
 		if p, ok := inst[to]; ok {
@@ -640,6 +651,13 @@ func algDkg(c algDkgCase, timeout time.Duration) obj {
 	}
 	sender := func(from uint16) func(msg []byte, bcast bool, to uint16) {
 		return func(msg []byte, bcast bool, to uint16) {
+			if bcast && len(msg) > 1 && msg[0] == 3 {
+				revMu.Lock()
+				if _, dup := reveals[from]; !dup {
+					reveals[from] = append([]byte(nil), msg[1:]...)
+				}
+				revMu.Unlock()
+			}
 			if bcast {
 				for _, p := range parties {
 					if p != from {
@@ -687,7 +705,9 @@ func algDkg(c algDkgCase, timeout time.Duration) obj {
 	res["ms"] = time.Since(t0).Milliseconds()
 	if ctx.Err() != nil {
 		res["timeout"] = true
-		atomic.AddInt32(&algTimeouts, 1)
+		if !c.Probe {
+			atomic.AddInt32(&algTimeouts, 1)
+		}
 	}
 	if player != nil && player.err != "" {
 		res["harness"] = player.err
@@ -713,6 +733,12 @@ func algDkg(c algDkgCase, timeout time.Duration) obj {
 		}
 	}
 	res["errs"], res["panics"] = errs, panics
+	for i := range honest {
+		if out[i].panic != "" {
+			res["panictxt"] = fmt.Sprintf("party %d: %s", honest[i], out[i].panic)
+			break
+		}
+	}
 	if !allok {
 		return res
 	}
@@ -733,6 +759,17 @@ func algDkg(c algDkgCase, timeout time.Duration) obj {
 		}
 	}
 	res["agree"] = agree
+	if agree {
+		// the reported public material must be a function of the keys announced in this key generation only
+		res["tpkhex"] = fmt.Sprintf("%x", sha256.Sum256(tpk))
+		if !c.Off {
+			var why string
+			if p := algCatch(func() { why = algMaterial(c.Scheme, c.T, parties, reveals, tpk) }); p != "" {
+				why = "panic: " + p
+			}
+			res["material"], res["matwhy"] = why == "", why
+		}
+	}
 	if !agree || c.Off || len(c.Subs) == 0 {
 		return res
 	}
@@ -786,6 +823,162 @@ func algDkg(c algDkgCase, timeout time.Duration) obj {
 	res["subs"], res["oks"], res["signed"] = subs, oks, true
 	res["ms"] = time.Since(t0).Milliseconds()
 	return res
+}
+
+// algLagrangeAt0 is the harness's own Lagrange coefficient (math/big) of point i among the points 1..t.
+func algLagrangeAt0(i, t int, r *big.Int) *big.Int {
+	num, den := big.NewInt(1), big.NewInt(1)
+	for j := 1; j <= t; j++ {
+		if j == i {
+			continue
+		}
+		num.Mul(num, big.NewInt(int64(j)))
+		num.Mod(num, r)
+		den.Mul(den, big.NewInt(int64(j-i)))
+		den.Mod(den, r)
+	}
+	return num.Mul(num, den.ModInverse(den, r)).Mod(num, r)
+}
+
+// algMaterial compares the public material an instance reports after a key generation (per-party keys, threshold key) with what
+// follows from the keys announced on the wire in that key generation: reported key i = announced key i, threshold key = the first
+// t announced keys interpolated at zero (independent arithmetic: math/big + mathlib).  "" if it matches.
+func algMaterial(scheme string, t int, parties []uint16, reveals map[uint16][]byte, reported []byte) string {
+	r := algOrder()
+	var pks [][]byte
+	var tpk []byte
+	if scheme == "bls" {
+		var pp bls.PublicParams
+		if _, err := asn1.Unmarshal(reported, &pp); err != nil {
+			return "unparsable public parameters: " + err.Error()
+		}
+		if len(pp.Parties) != len(parties) {
+			return fmt.Sprintf("%d parties reported, %d took part", len(pp.Parties), len(parties))
+		}
+		for i, p := range pp.Parties {
+			if uint16(p) != parties[i] {
+				return fmt.Sprintf("party %d reported at position %d, expected %d", p, i+1, parties[i])
+			}
+		}
+		pks, tpk = pp.PublicKeys, pp.ThresholdPK
+	} else {
+		var pp ps.ThresholdPK
+		if _, err := asn1.Unmarshal(reported, &pp); err != nil {
+			return "unparsable threshold key: " + err.Error()
+		}
+		pks, tpk = pp.PublicKeys, pp.TPK
+	}
+	if len(pks) != len(parties) {
+		return fmt.Sprintf("%d public keys reported for %d parties", len(pks), len(parties))
+	}
+	for i, id := range parties {
+		if !bytes.Equal(pks[i], reveals[id]) {
+			return fmt.Sprintf("the reported key of party %d is not the key it announced in this key generation", id)
+		}
+	}
+	// components of a key: one G2 point (BLS) or X, Y1.. (PS)
+	comps := func(b []byte) ([]*math.G2, error) {
+		if scheme == "bls" {
+			g, err := algCurve.NewG2FromBytes(b)
+			return []*math.G2{g}, err
+		}
+		var x ps.XYs
+		if _, err := asn1.Unmarshal(b, &x); err != nil {
+			return nil, err
+		}
+		var res []*math.G2
+		for _, raw := range append([][]byte{x.X}, x.Ys...) {
+			g, err := algCurve.NewG2FromBytes(raw)
+			if err != nil {
+				return nil, err
+			}
+			res = append(res, g)
+		}
+		return res, nil
+	}
+	want, err := comps(tpk)
+	if err != nil {
+		return "unparsable threshold key: " + err.Error()
+	}
+	var sum []*math.G2
+	for i := 1; i <= t; i++ {
+		cs, err := comps(reveals[parties[i-1]])
+		if err != nil || len(cs) != len(want) {
+			return fmt.Sprintf("announced key of party %d does not parse", parties[i-1])
+		}
+		l := algCurve.NewZrFromBytes(algZrBytes(algLagrangeAt0(i, t, r)))
+		for j := range cs {
+			term := cs[j].Mul(l)
+			if i == 1 {
+				sum = append(sum, term)
+			} else {
+				sum[j].Add(term)
+			}
+		}
+	}
+	for j := range want {
+		if !bytes.Equal(sum[j].Bytes(), want[j].Bytes()) {
+			return "the reported threshold key is not the interpolation of the keys announced in this key generation"
+		}
+	}
+	return ""
+}
+
+// a sequence of key generations on the SAME instances (Init + KeyGen again): committees of different sizes drawn from one universe
+// of identifiers, honest and deviating runs interleaved.  A party played by the harness in a run simply does not use its real
+// instance in that run.
+type algSeqCase struct {
+	Scheme   string       `json:"scheme"`
+	Plan     []int        `json:"plan"`
+	Universe []uint16     `json:"universe"`
+	Runs     []algDkgCase `json:"runs"`
+	MsgLen   int          `json:"msglen"`
+	Seed     int64        `json:"seed"`
+	Kind     string       `json:"kind"` // "seq" (default) or "seqprobe" (exploratory: does the tree support re-keying at all?)
+}
+
+func algSeq(c algSeqCase, timeout time.Duration) obj {
+	pool := map[uint16]algParty{}
+	used := map[uint16]int{}
+	get := func(id uint16, msgLen int) algParty {
+		if _, ok := pool[id]; !ok {
+			pool[id] = algNewParty(c.Scheme, id, msgLen)
+		}
+		used[id]++
+		return pool[id]
+	}
+	runs := make([]obj, 0, len(c.Runs))
+	seen := map[string]bool{}
+	for k, rc := range c.Runs {
+		rc.Scheme, rc.MsgLen = c.Scheme, c.MsgLen
+		if len(rc.Ids) != rc.N {
+			rc.Ids = append([]uint16(nil), c.Universe[:rc.N]...)
+		}
+		r := algDkgOn(rc, timeout, get)
+		r["run"] = k + 1
+		fresh := true
+		if h, _ := r["tpkhex"].(string); h != "" {
+			fresh = !seen[h] // fresh randomness in every key generation: the same threshold key twice means stale state
+			seen[h] = true
+		}
+		r["fresh"] = fresh
+		reused := 0
+		for _, id := range rc.Ids {
+			if used[id] > 1 {
+				reused++
+			}
+		}
+		r["reused"] = reused
+		runs = append(runs, r)
+		if r["timeout"] == true {
+			break // instances may be wedged; the rest of the sequence would only time out as well
+		}
+	}
+	kind := c.Kind
+	if kind == "" {
+		kind = "seq"
+	}
+	return obj{"k": kind, "scheme": c.Scheme, "plan": c.Plan, "universe": c.Universe, "seed": c.Seed, "runs": runs, "planned": len(c.Runs)}
 }
 
 func algSignBLS(rng *mrand.Rand, parties []uint16, signers map[uint16]algParty, tpk []byte, subs [][]int, oks []bool) {
@@ -1156,8 +1349,12 @@ func algBigDealRun(c algBigDeal) obj {
 	pks := make([][]byte, c.N)
 	for i := range parties {
 		parties[i], ints[i] = uint16(i+1), i+1
+		if len(c.Ids) == c.N {
+			parties[i], ints[i] = c.Ids[i], int(c.Ids[i])
+		}
 		pks[i] = key(func(sidx int) []byte { return shares[sidx][i] })
 	}
+	res["ids"] = parties
 	rawTPK := key(func(sidx int) []byte { return polys[sidx][0] })
 	var tpk []byte
 	var err error
@@ -1273,6 +1470,9 @@ func init() {
 		bd := make([]obj, len(job.BDeal))
 		algPar(len(bd), job.Workers, func(i int) { bd[i] = algBigDealRun(job.BDeal[i]) })
 		recs = append(recs, bd...)
+		sq := make([]obj, len(job.Seq))
+		algPar(len(sq), job.Workers, func(i int) { sq[i] = algSeq(job.Seq[i], timeout) })
+		recs = append(recs, sq...)
 		for i := range recs {
 			recs[i]["id"] = i + 1
 		}
